@@ -544,6 +544,35 @@ pub fn cell_set(rng: &mut Rng, flavour: &str) -> Vec<MCell> {
                 }
             }
         }
+        "border" => {
+            // k lone cells (one child out of each of k different sibling groups, so nothing can merge) followed in id order by ONE
+            // complete sibling group, optionally followed by a few more lone cells; k sits around a power of two, so that the group
+            // straddles a list position where a chunked or blocked scan would cut it
+            let base = match rng.below(10) {
+                0 => 4096usize,
+                1 => 8192,
+                2 => 2048,
+                3 | 4 => 1024,
+                5 | 6 => 256,
+                7 => 64,
+                _ => 16,
+            };
+            let k = base - 6 + rng.usize(9);
+            let mut depth = 2;
+            while (1usize << (2 * depth)) < 4 * (k + 8) {
+                depth += 1;
+            }
+            let root_res = 1 + rng.below((MAX_RES - depth as i32) as u64) as i32;
+            let root = random_cell(rng, root_res);
+            let all = children_at(root, root.res + depth as i32);
+            for g in 0..k {
+                out.push(all[4 * g + rng.usize(4)]);
+            }
+            out.extend_from_slice(&all[4 * k..4 * k + 4]);
+            for g in 0..rng.usize(4) {
+                out.push(all[4 * (k + 1 + g) + rng.usize(4)]);
+            }
+        }
         "spine" => {
             // a complete covering of a root in which ONE path is refined all the way down to a random depth (up to the
             // finest resolution): every level holds the path cell's siblings, so compaction has to cascade through every
@@ -754,7 +783,7 @@ mod tests {
                 assert!(lon.is_finite() && lat.abs() <= 90.0, "{c} {lon} {lat}");
             }
         }
-        for f in ["antichain", "complete", "multiroot", "lowres", "lookalike", "spine"] {
+        for f in ["antichain", "complete", "multiroot", "lowres", "lookalike", "spine", "border"] {
             for _ in 0..50 {
                 let s = cell_set(&mut rng, f);
                 assert!(!s.is_empty());
